@@ -227,6 +227,8 @@ class MDCPDPEnv(RL4COEnvBase):
     def _reset(self, td: Optional[TensorDict] = None, batch_size=None) -> TensorDict:
         device = td.device
         locs = torch.cat((td["depot"], td["locs"]), -2)
+        num_depot = td["depot"].shape[-2]
+        num_loc = td["locs"].shape[-2]  # customers of this instance (pickups + deliveries)
 
         # Record how many depots are visited
         depot_idx = torch.zeros((*batch_size, 1), dtype=torch.int64, device=device)
@@ -236,13 +238,13 @@ class MDCPDPEnv(RL4COEnvBase):
             [
                 torch.ones(
                     *batch_size,
-                    self.generator.num_loc // 2 + self.generator.num_depot,
+                    num_loc // 2 + num_depot,
                     dtype=torch.bool,
                     device=device,
                 ),
                 torch.zeros(
                     *batch_size,
-                    self.generator.num_loc // 2,
+                    num_loc // 2,
                     dtype=torch.bool,
                     device=device,
                 ),
@@ -253,7 +255,7 @@ class MDCPDPEnv(RL4COEnvBase):
         # Current depot index
         if self.start_mode == "random":
             current_depot = torch.randint(
-                low=0, high=self.generator.num_depot, size=(*batch_size, 1), device=device
+                low=0, high=num_depot, size=(*batch_size, 1), device=device
             )
         elif self.start_mode == "order":
             current_depot = torch.zeros(
@@ -265,19 +267,19 @@ class MDCPDPEnv(RL4COEnvBase):
 
         # Current length of each depot
         current_length = torch.zeros(
-            (*batch_size, self.generator.num_depot), dtype=torch.float32, device=device
+            (*batch_size, num_depot), dtype=torch.float32, device=device
         )
 
         # Arrive time for each city
         arrivetime_record = torch.zeros(
-            (*batch_size, self.generator.num_loc + self.generator.num_depot),
+            (*batch_size, num_loc + num_depot),
             dtype=torch.float32,
             device=device,
         )
 
         # Cannot visit depot at first step # [0,1...1] so set not available
         available = torch.ones(
-            (*batch_size, self.generator.num_loc + self.generator.num_depot),
+            (*batch_size, num_loc + num_depot),
             dtype=torch.bool,
             device=device,
         )
